@@ -441,6 +441,7 @@ class Expander:
             if modname.startswith("_fixture"):
                 continue
             # aliases first: a helper called through a local alias (`value_of = self._value_of`) must be visible to the expansion
+            library_defaults(m.tree)
             plain_assignments(m.tree)
             spread_keyword_dicts(m.tree)
             split_chained_assignments(m.tree)
@@ -1374,6 +1375,51 @@ def drop_reraise_handlers(tree: ast.AST) -> int:
                         blk[i:i + 1] = list(st.body) + list(st.orelse)
                         continue
                 i += 1
+    return n
+
+
+# Library calls spelled with their defaults (pandas 3.0 / numpy 2 / gymnasium 1 as installed; signatures read once with
+# inspect.signature when this table was written - see DESIGN 19): per method name, the leading parameters that may be given
+# by keyword or by position alike, and the keyword arguments whose listed value IS the default. A table of reviewed library
+# facts, like the purity tables of the engine: it is consulted only for receivers that are not objects of the package.
+_LIB_POSITIONAL = {"reindex": ["index"], "fillna": ["value"], "clip": ["lower", "upper"], "drop": ["labels"], "Box": ["low", "high", "shape", "dtype"]}
+_LIB_DEFAULTS = {"union": {"sort": ["None"]}, "ffill": {"axis": ["0", "None"]}, "bfill": {"axis": ["0", "None"]}, "fillna": {"axis": ["0", "None"]}, "clip": {"axis": ["None"]},
+                 "drop": {"axis": ["0"]}, "concatenate": {"axis": ["0"]}}
+
+
+def library_defaults(tree: ast.AST) -> int:
+    n = 0
+    for c in [x for x in ast.walk(tree) if isinstance(x, ast.Call)]:
+        nm = c.func.attr if isinstance(c.func, ast.Attribute) else (c.func.id if isinstance(c.func, ast.Name) else None)
+        if nm is None or any(k.arg is None for k in c.keywords) or any(isinstance(a, ast.Starred) for a in c.args):
+            continue
+        if isinstance(c.func, ast.Attribute) and isinstance(c.func.value, ast.Name) and c.func.value.id in ("self", "cls"):
+            continue
+        # dtype=np.float64 is dtype=float; x.astype(np.float64) is x.astype(float)
+        for k in c.keywords:
+            if k.arg == "dtype" and ast.unparse(k.value) in ("np.float64", "numpy.float64"):
+                k.value = ast.copy_location(ast.Name(id="float", ctx=ast.Load()), k.value)
+                n += 1
+        if nm == "astype" and len(c.args) == 1 and ast.unparse(c.args[0]) in ("np.float64", "numpy.float64"):
+            c.args[0] = ast.copy_location(ast.Name(id="float", ctx=ast.Load()), c.args[0])
+            n += 1
+        for kw, vals in _LIB_DEFAULTS.get(nm, {}).items():
+            keep = [k for k in c.keywords if not (k.arg == kw and ast.unparse(k.value) in vals)]
+            if len(keep) != len(c.keywords):
+                c.keywords = keep
+                n += 1
+        lead = _LIB_POSITIONAL.get(nm)
+        if lead:
+            while len(c.args) < len(lead):
+                want = lead[len(c.args)]
+                k = next((k for k in c.keywords if k.arg == want), None)
+                if k is None:
+                    break
+                if nm == "reindex" and any(x.arg in ("labels", "axis", "columns") for x in c.keywords):
+                    break
+                c.args.append(k.value)
+                c.keywords = [x for x in c.keywords if x is not k]
+                n += 1
     return n
 
 
